@@ -146,7 +146,8 @@ Fixpoint place_of (e : rx) : option place :=
   | XRef e' => place_of e'
   | XField e' f => match place_of e' with Some (r, p) => Some (r, cat p [f]) | None => None end
   | XMeth e' m [] =>
-      if String.eqb m "rc_deref_mut" || String.eqb m "rc_deref" then place_of e' else None
+      if String.eqb m "rc_deref_mut" || String.eqb m "rc_deref" || String.eqb m "as_mut" || String.eqb m "as_ref"
+      then place_of e' else None
   | _ => None
   end.
 
@@ -161,8 +162,10 @@ Fixpoint set_nth {A} (n : nat) (x : A) (l : list A) : option (list A) :=
   | _, [] => None
   end.
 
+(* "?" names the payload of Some(x): `if let Some(o) = &mut *cell` binds o to that place *)
 Definition get_field (v : rv) (f : string) : option rv :=
   match v with
+  | VSome x => if String.eqb f "?" then Some x else None
   | VStruct _ fs => lookup f fs
   | VTup l => match digit_index f with Some n => nth_error l n | None => None end
   | _ => None
@@ -170,6 +173,7 @@ Definition get_field (v : rv) (f : string) : option rv :=
 
 Definition set_field (v : rv) (f : string) (x : rv) : option rv :=
   match v with
+  | VSome _ => if String.eqb f "?" then Some (VSome x) else None
   | VStruct n fs => match update f x fs with Some fs' => Some (VStruct n fs') | None => None end
   | VTup l => match digit_index f with
               | Some n => match set_nth n x l with Some l' => Some (VTup l') | None => None end
@@ -313,7 +317,8 @@ Definition builtin (m : string) (recv : rv) (args : list rv) : option (rv * rv *
         match args with [] => Some (VUnit, recv, [Done]) | _ => None end
       else None
   | VOptItem o =>
-      if String.eqb m "as_mut" || String.eqb m "as_ref" || String.eqb m "clone" || String.eqb m "cloned" then
+      if String.eqb m "as_mut" || String.eqb m "as_ref" || String.eqb m "clone" || String.eqb m "cloned"
+         || String.eqb m "rc_deref" || String.eqb m "rc_deref_mut" then
         match args with [] => same recv | _ => None end
       else if String.eqb m "take" then
         match args with [] => Some (recv, VOptItem None, []) | _ => None end
@@ -327,7 +332,8 @@ Definition builtin (m : string) (recv : rv) (args : list rv) : option (rv * rv *
         match args with [VItem x] => Some (recv, VOptItem (Some x), []) | [x] => Some (recv, VSome x, []) | _ => None end
       else None
   | VSome x =>
-      if String.eqb m "as_mut" || String.eqb m "as_ref" || String.eqb m "clone" || String.eqb m "cloned" then
+      if String.eqb m "as_mut" || String.eqb m "as_ref" || String.eqb m "clone" || String.eqb m "cloned"
+         || String.eqb m "rc_deref" || String.eqb m "rc_deref_mut" then
         match args with [] => same recv | _ => None end
       else if String.eqb m "take" then
         match args with [] => Some (recv, VOptItem None, []) | _ => None end
@@ -399,7 +405,14 @@ Definition builtin (m : string) (recv : rv) (args : list rv) : option (rv * rv *
       else None
   | VSrc =>
       if String.eqb m "actual_subscribe" then match args with [o] => Some (o, recv, []) | _ => None end else None
-  | VItem _ | VNat _ | VBool _ | VTup _ =>
+  | VBool _ =>
+      (* Cell<bool> / AtomicBool *)
+      if String.eqb m "clone" || String.eqb m "get" then match args with [] => same recv | _ => None end
+      else if String.eqb m "load" then match args with [_] => same recv | _ => None end
+      else if String.eqb m "set" then match args with [VBool b] => Some (VUnit, VBool b, []) | _ => None end
+      else if String.eqb m "store" then match args with [VBool b; _] => Some (VUnit, VBool b, []) | _ => None end
+      else None
+  | VItem _ | VNat _ | VTup _ =>
       if String.eqb m "clone" then match args with [] => same recv | _ => None end else None
   | _ => None
   end.
@@ -466,6 +479,19 @@ Fixpoint find_method (p : prog) (key m : string) : option (list string * list rs
   match p with
   | [] => None
   | (k, n, b) :: p' => if String.eqb k key && String.eqb n m then Some b else find_method p' key m
+  end.
+
+(* the impl of method m for a struct: under its own name, or under the names the macros give it *)
+Definition find_impl (p : prog) (file name m : string) : option (list string * list rs) :=
+  if String.eqb name "Option" then find_method p "observer.rs:$rc<Option>" m
+  else
+  match find_method p (file ++ ":" ++ name)%string m with
+  | Some b => Some b
+  | None =>
+      match find_method p (file ++ ":$rc<" ++ name ++ ">")%string m with
+      | Some b => Some b
+      | None => find_method p (file ++ ":$name<O>")%string m
+      end
   end.
 
 Definition st := (frame * list ev)%type.
@@ -617,22 +643,29 @@ Fixpoint eval_x (fuel : nat) (s : st) (e : rx) {struct fuel} : option (st * rv) 
               | _ => None end
           | _ => None end
         else
-        match eval_recv f s r with
+        match eval_recv f s r m with
         | Some (s', pl, recv) =>
             match eval_args f s' args with
             | Some ((fr2, out2), vs) =>
                 (* the receiver is read after the arguments have been evaluated when it is a place *)
                 let recv2 := match pl with Some pl' => get_place fr2 pl' | None => Some recv end in
+                let recv2 :=
+                  (* an Option cell used as an observer: `impl Observer for $rc<Option<O>>` (observer.rs) *)
+                  match recv2 with
+                  | Some (VSome _ as c) | Some (VOptItem None as c) =>
+                      if (String.eqb m "next" || String.eqb m "error" || String.eqb m "complete")%bool
+                      then Some (VStruct "Option" [("", c)]) else recv2
+                  | _ => recv2
+                  end in
                 match recv2 with
                 | Some (VStruct name flds) =>
-                    match (match find_method P (file ++ ":" ++ name)%string m with
-                           | Some b => Some b
-                           | None => find_method P (file ++ ":$rc<" ++ name ++ ">")%string m
-                           end) with
+                    match find_impl P file name m with
                     | Some (ps, body) =>
                         match zip_params ps vs with
                         | Some locals =>
-                            match eval_block f ({| fself := VStruct name flds; flocals := locals |}, out2) body with
+                            let self0 := if String.eqb name "Option" then match flds with [(_, c)] => c | _ => VUnit end
+                                         else VStruct name flds in
+                            match eval_block f ({| fself := self0; flocals := locals |}, out2) body with
                             | Some ((cfr, out3), res) =>
                                 match pl with
                                 | Some pl' => match set_place fr2 pl' (fself cfr) with
@@ -680,6 +713,14 @@ Fixpoint eval_x (fuel : nat) (s : st) (e : rx) {struct fuel} : option (st * rv) 
             (* `if let Some(p1) = <an Option<Item>>`: the case distinction on the option itself comes first,
                so that both branches are evaluated to the end (same meaning as the generic path) *)
             match v, p with
+            | VSome _, PCtor c [PVar x] =>
+                (* Some(x) of something that is not an item, read from a place inside self: x names the payload, it is not a copy *)
+                if String.eqb c "Some" then
+                  match place_of e' with
+                  | Some (None, p0) => run_then [(x, VRef (cat p0 ["?"]))]
+                  | _ => generic
+                  end
+                else generic
             | VOptItem o, PCtor c [p1] =>
                 if String.eqb c "Some" then
                   match o with
@@ -746,10 +787,17 @@ Fixpoint eval_x (fuel : nat) (s : st) (e : rx) {struct fuel} : option (st * rv) 
     end
   end
 
-with eval_recv (fuel : nat) (s : st) (r : rx) {struct fuel} : option (st * option place * rv) :=
+with eval_recv (fuel : nat) (s : st) (r0 : rx) (m : string) {struct fuel} : option (st * option place * rv) :=
   match fuel with
   | O => None
   | S f =>
+      (* `cell.clone().complete()`: the clone of a shared observer cell (Rc / Arc) is the same cell *)
+      let r := match r0 with
+               | XMeth r' c [] =>
+                   if String.eqb c "clone" && (String.eqb m "next" || String.eqb m "error" || String.eqb m "complete")
+                   then r' else r0
+               | _ => r0
+               end in
       match place_of r with
       | Some pl => match get_place (fst s) pl with Some v => Some (s, Some pl, v) | None => None end
       | None => match eval_x f s r with Some (s', v) => Some (s', None, v) | None => None end
@@ -848,10 +896,7 @@ with eval_block (fuel : nat) (s : st) (b : list rs) {struct fuel} : option (st *
 
 (* One call of a method of a struct value: the events it sends downstream, the struct afterwards, the result. *)
 Definition call_method (fuel : nat) (ty m : string) (self : rv) (args : list rv) : option (rv * list ev * rv) :=
-  match (match find_method P (file ++ ":" ++ ty)%string m with
-         | Some b => Some b
-         | None => find_method P (file ++ ":$rc<" ++ ty ++ ">")%string m
-         end) with
+  match find_impl P file ty m with
   | Some (ps, body) =>
       match zip_params ps args with
       | Some locals =>
